@@ -299,6 +299,43 @@ class MsgGen:
   def next(s):
     s.ctr += 1
     return (s.rng.getrandbits(1) << 7) | (1 + s.ctr % 127)
+  def accepted(s): pass
+
+class DupGen:
+  """payloads that force EQUAL messages to be in flight together (a queue that retires/selects by value instead of by
+  position is invisible with pairwise distinct payloads).  `pattern` is a finite word over a 1..3 symbol alphabet that is
+  repeated cyclically (v,w,v / palindromes / all-equal runs) or None = uniformly random symbols.  The pattern advances only
+  when the offered message was ACCEPTED, so the queued sequence is exactly the pattern whatever the offer timing is."""
+  def __init__(s, rng, alphabet, pattern=None): s.rng, s.alpha, s.pattern, s.i, s.cur = rng, alphabet, pattern, 0, None
+  def next(s):
+    if s.cur is None:
+      s.cur = s.alpha[s.pattern[s.i % len(s.pattern)]] if s.pattern else s.rng.choice(s.alpha)
+    return s.cur
+  def accepted(s): s.i += 1; s.cur = None
+
+ALPHABETS = [[7], [7, 9], [0, 1], [5, 6, 7], [0]]
+PATTERNS = [[0, 1, 0], [0, 1, 1, 0], [0, 0, 1], [0, 1, 0, 0, 1], [0, 1, 2, 1, 0], [0, 0, 0, 1]]
+
+def dup_plans(rng, d, quick):
+  """(tag, wants, payload generator) with duplicate payloads in flight"""
+  n = d.n
+  out = []
+  # directed: fill the queue with every word over a 2-symbol alphabet, then (a) drain, (b) stream through while full, then drain
+  words = list(itertools.product(range(2), repeat=n))
+  if len(words) > 8 and quick: words = rng.sample(words, 8)
+  for w in words:
+    alpha = rng.choice([[7, 9], [0, 1]])
+    out.append(('dup-fill', [(0, 1, 0)] * n + [(0, 0, 1)] * n, DupGen(rng, alpha, list(w) + [1 - w[0]])))
+    out.append(('dup-stream', [(0, 1, 0)] * n + [(0, 1, 1)] * (n + 1) + [(0, 0, 1)] * n, DupGen(rng, alpha, list(w) + list(w[::-1]))))
+  # random offer timing with cyclic patterns (v,w,v ; palindromes ; runs) and with random symbols from tiny alphabets
+  for k in range(3 if quick else 10):
+    pat = PATTERNS[(k + n) % len(PATTERNS)]
+    fits = [a for a in ALPHABETS if len(a) > max(pat)]
+    alpha = fits[k % len(fits)]
+    out.append(('dup-pattern', random_wants(rng, 80 if quick else 200, False), DupGen(rng, alpha, pat)))
+  for k in range(3 if quick else 10):
+    out.append(('dup-random', random_wants(rng, 80 if quick else 200, d.has_reset and k % 2 == 1), DupGen(rng, ALPHABETS[(k + n) % len(ALPHABETS)])))
+  return out
 
 def exhaustive_wants(n, depth, rots, rot_depth):
   """prefix that puts the queue at a chosen (head position, occupancy), then EVERY (want_enq, want_deq) sequence of the given depth.
@@ -329,7 +366,9 @@ def run_case(d, wants, mg):
   else: seq = [(0, we, wd) for (_, we, wd) in seq] + [(0, 0, 1)] * (d.n + 2)
   d.partial = hist
   for rst, we, wd in seq:
-    hist.append(d.cycle(rst, we, mg.next(), wd))
+    r = d.cycle(rst, we, mg.next(), wd)
+    if r['ef']: mg.accepted()
+    hist.append(r)
   return hist
 
 def replay_fresh(d, offers):
@@ -393,9 +432,10 @@ def run(ctx):
     if not quick and d.n <= 2:    # every offer sequence from the empty queue, depth 5 (n=1) / 6 (n=2)
       plans += [('exh-deep', [(0, c >> 1, c & 1) for c in seq]) for seq in itertools.product(range(4), repeat=d.n + 4)]
     plans += [('rnd', random_wants(rng, 200, d.has_reset)) for _ in range(nrand)]
-    for tag, wants in plans:
+    plans = [(tag, wants, mg) for tag, wants in plans] + dup_plans(rng, d, quick)
+    for tag, wants, gen in plans:
       try:
-        hist = run_case(d, wants, mg)
+        hist = run_case(d, wants, gen)
       except Exception as e:
         # the simulated component (or the legality assertion of the driver) blew up in the middle of a history
         part = getattr(d, 'partial', [])
@@ -404,7 +444,7 @@ def run(ctx):
         break
       cycles += len(hist)
       cases.append(case_term(d, hist)); meta.append((d, tag, hist))
-      key = (d.label, tuple((r['rst'], r['we'], r['wd']) for r in hist))
+      key = (d.label, tuple((r['rst'], r['we'], r['wd']) + ((r['msg'],) if tag.startswith('dup') else ()) for r in hist))
       nontrivial = any(r['ef'] for r in hist) and any(r['df'] for r in hist)
       ctx.count(key, nontrivial, cls=f'{d.label}:{tag}')
   ctx.extra['simulated_cycles'] = cycles
@@ -490,5 +530,5 @@ def main(ctx):
     ctx.violation('C17:harness-crash', f'correspondence could not run: {e!r}', {'traceback': traceback.format_exc()}, found_input=False)
   return ctx.finish(rule='case = one queue class x capacity 1..5 x one offer history starting from the empty queue: (a) exhaustive: prefix (rotate head R times, fill L=0..n) then every '
                          '(want_enq,want_deq) sequence of depth 3 (quick) / 4 (thorough; plus every sequence of depth n+4 from empty for n<=2), (b) random 200-cycle histories with '
-                         'bursty offer rates and 2% resets; distinct = distinct (class, capacity, offer sequence); non-trivial = at least one message accepted '
+                         'bursty offer rates and 2% resets, (c) duplicate payloads in flight: every 2-symbol word filling the queue then drained / streamed through, cyclic v,w,v / palindrome / run patterns and random symbols from 1..3-symbol alphabets (incl. 0) under random offer timing; messages otherwise carry a distinguishing counter; distinct = distinct (class, capacity, offer sequence); non-trivial = at least one message accepted '
                          'and one delivered; every cycle compares rdy/val/fire/msg/count and the internal registers with the Coq spec and concrete model (coqc vm_compute)')
